@@ -146,3 +146,253 @@ func ruleSet(rs ...string) map[string]bool {
 	}
 	return m
 }
+
+// ---- member generators -------------------------------------------------------------------
+
+func stringMembers(tier string, cfg gen.Config) []member {
+	var out []member
+	for _, pos := range positions {
+		for _, kws := range subsets([]string{"minLength", "maxLength", "pattern"}) {
+			sp := &fam.Spec{Kind: "string", Kw: kws}
+			out = append(out, member{name: "string " + pos + " " + sp.String(), cfg: cfg, root: place(sp, pos)})
+		}
+	}
+	return out
+}
+
+// arraySpec builds a depth-d array of elem with the given per-depth keyword sets.
+func arraySpec(elem *fam.Spec, kws ...[]string) *fam.Spec {
+	s := elem
+	for i := len(kws) - 1; i >= 0; i-- {
+		s = &fam.Spec{Kind: "array", Items: s, Kw: kws[i]}
+	}
+	return s
+}
+
+func arrayMembers(tier string, cfg gen.Config) []member {
+	var out []member
+	sets := [][]string{nil, {"minItems"}, {"maxItems"}, {"minItems", "maxItems"}}
+	elems := []*fam.Spec{{Kind: "string"}, {Kind: "integer"}}
+	poss := []string{"required", "optional", "nullable-optional"}
+	add := func(sp *fam.Spec, pos string) {
+		out = append(out, member{name: "array " + pos + " " + sp.String(), cfg: cfg, root: place(sp, pos)})
+	}
+	for _, pos := range poss {
+		for _, el := range elems {
+			for _, k1 := range sets {
+				add(arraySpec(el, k1), pos)
+				for _, k2 := range sets {
+					if tier != "thorough" && pos != "required" && len(k2) == 1 {
+						continue
+					}
+					add(arraySpec(el, k1, k2), pos)
+					if tier == "thorough" {
+						for _, k3 := range sets {
+							add(arraySpec(el, k1, k2, k3), pos)
+						}
+					}
+				}
+			}
+		}
+		// depth 3 with distinct limits at every level, and limits only on inner levels
+		add(arraySpec(&fam.Spec{Kind: "string"}, sets[3], sets[3], sets[3]), pos)
+		add(arraySpec(&fam.Spec{Kind: "string"}, nil, nil, sets[3]), pos)
+		add(arraySpec(&fam.Spec{Kind: "string"}, nil, sets[1], nil), pos)
+	}
+	return out
+}
+
+func nullMembers(tier string, cfg gen.Config) []member {
+	var out []member
+	for _, pos := range []string{"required", "optional"} {
+		out = append(out, member{name: "null " + pos, cfg: cfg, root: place(&fam.Spec{Kind: "null"}, pos)})
+		for d := 1; d <= 3; d++ {
+			kws := make([][]string, d)
+			out = append(out, member{name: fmt.Sprintf("array^%d of null %s", d, pos), cfg: cfg, root: place(arraySpec(&fam.Spec{Kind: "null"}, kws...), pos)})
+		}
+		// null items together with limits on the array
+		out = append(out, member{name: "array{min,max} of null " + pos, cfg: cfg, root: place(arraySpec(&fam.Spec{Kind: "null"}, []string{"minItems", "maxItems"}), pos)})
+		out = append(out, member{name: "array{min} of array of null " + pos, cfg: cfg, root: place(arraySpec(&fam.Spec{Kind: "null"}, []string{"minItems"}, nil), pos)})
+	}
+	return out
+}
+
+func typeMembers(tier string, cfg gen.Config) []member {
+	var out []member
+	specs := []*fam.Spec{{Kind: "string"}, {Kind: "integer"}, {Kind: "number"}, {Kind: "boolean"},
+		{Kind: "string", Format: "date-time"}, {Kind: "string", Format: "date"}, {Kind: "string", Format: "time"}, {Kind: "string", Format: "ipv4"}, {Kind: "string", Format: "ipv6"},
+		{Kind: "array", Items: &fam.Spec{Kind: "string"}}, {Kind: "array", Items: &fam.Spec{Kind: "number"}}, {Kind: "array"},
+		{Kind: "object"}, {Kind: "object", Props: []*fam.Prop{{Label: "q", Spec: &fam.Spec{Kind: "string"}}}},
+		{Kind: "array", Items: &fam.Spec{Kind: "object", Props: []*fam.Prop{{Label: "q", Spec: &fam.Spec{Kind: "integer"}, Required: true}}}},
+		{Kind: "array", Items: &fam.Spec{Kind: "integer", Null: "after"}},
+	}
+	for _, sp := range specs {
+		for _, pos := range positions {
+			if sp.Kind == "object" && len(sp.Props) == 0 && pos[:3] == "def" {
+				continue
+			}
+			if sp.Kind == "array" && sp.Items == nil && pos[:3] == "def" {
+				continue // generation fails loudly for an item-less array behind a definition (observation, DESIGN.md §7)
+			}
+			out = append(out, member{name: "type " + pos + " " + sp.String(), cfg: cfg, root: place(sp, pos)})
+		}
+	}
+	return out
+}
+
+func requiredMembers(tier string, cfg gen.Config) []member {
+	var out []member
+	mk := func(mask int, deflt bool, nullable bool) *fam.Spec {
+		inner := &fam.Spec{Kind: "object", Props: []*fam.Prop{{Label: "n", Spec: &fam.Spec{Kind: "string"}, Required: mask&8 != 0}, {Label: "m", Spec: &fam.Spec{Kind: "integer"}}}}
+		a := &fam.Spec{Kind: "string"}
+		if nullable {
+			a.Null = "after"
+		}
+		b := &fam.Spec{Kind: "integer"}
+		if deflt {
+			b.Default = "scalar"
+		}
+		return &fam.Spec{Kind: "object", Props: []*fam.Prop{
+			{Label: "a", Spec: a, Required: mask&1 != 0},
+			{Label: "b", Spec: b, Required: mask&2 != 0},
+			{Label: "c", Spec: inner, Required: mask&4 != 0},
+		}}
+	}
+	for mask := 0; mask < 16; mask++ {
+		for _, d := range []bool{false, true} {
+			for _, n := range []bool{false, true} {
+				if tier != "thorough" && d && n && mask%3 != 0 {
+					continue
+				}
+				sp := mk(mask, d, n)
+				out = append(out, member{name: fmt.Sprintf("required mask=%d default=%v nullable=%v", mask, d, n), cfg: cfg, root: sp})
+			}
+		}
+	}
+	// formats / objects with typed additionalProperties / arrays as required properties
+	for _, v := range []*fam.Spec{{Kind: "string", Format: "date-time", Null: "after"}, {Kind: "object", AddProps: "string"}, {Kind: "object", AddProps: "integer"},
+		{Kind: "array", Items: &fam.Spec{Kind: "string"}}, {Kind: "string", Format: "ipv4"}, {Kind: "boolean"}, {Kind: "number", Null: "before"}} {
+		for _, req := range []bool{true, false} {
+			out = append(out, member{name: fmt.Sprintf("required=%v %s", req, v.String()), cfg: cfg, root: &fam.Spec{Kind: "object", Props: []*fam.Prop{{Label: "p", Spec: v.Clone(), Required: req}}}})
+		}
+	}
+	// a name in required without a property; required inside array elements; behind a reference
+	out = append(out, member{name: "required name without property", cfg: cfg, root: &fam.Spec{Kind: "object", ReqNoProp: true, Props: []*fam.Prop{{Label: "a", Spec: &fam.Spec{Kind: "string"}}}}})
+	elem := &fam.Spec{Kind: "object", Props: []*fam.Prop{{Label: "e", Spec: &fam.Spec{Kind: "string"}, Required: true}, {Label: "f", Spec: &fam.Spec{Kind: "number"}}}}
+	out = append(out, member{name: "required in array element", cfg: cfg, root: &fam.Spec{Kind: "object", Props: []*fam.Prop{{Label: "xs", Spec: &fam.Spec{Kind: "array", Items: elem}}}}})
+	out = append(out, member{name: "required in array^2 element", cfg: cfg, root: &fam.Spec{Kind: "object", Props: []*fam.Prop{{Label: "xs", Spec: arraySpec(elem.Clone(), nil, nil), Required: true}}}})
+	refd := elem.Clone()
+	refd.Ref = "$defs"
+	out = append(out, member{name: "required in referenced object", cfg: cfg, root: &fam.Spec{Kind: "object", Props: []*fam.Prop{{Label: "r", Spec: refd}}}})
+	return out
+}
+
+func defaultMembers(tier string, cfg gen.Config) []member {
+	var out []member
+	type dv struct {
+		sp *fam.Spec
+	}
+	var specs []*fam.Spec
+	for _, k := range []string{"string", "integer", "number", "boolean"} {
+		specs = append(specs, &fam.Spec{Kind: k, Default: "scalar"})
+	}
+	specs = append(specs,
+		&fam.Spec{Kind: "string", Default: "scalar", Kw: []string{"minLength"}},
+		&fam.Spec{Kind: "string", Default: "scalar", Kw: []string{"pattern", "maxLength"}},
+		&fam.Spec{Kind: "integer", Default: "scalar", Kw: []string{"minimum"}},
+		&fam.Spec{Kind: "number", Default: "scalar", Kw: []string{"maximum", "multipleOf"}, EMin: "num"},
+		&fam.Spec{Kind: "array", Items: &fam.Spec{Kind: "string"}, Default: "slice"},
+		&fam.Spec{Kind: "array", Items: &fam.Spec{Kind: "string"}, Default: "emptyslice"},
+		&fam.Spec{Kind: "array", Items: &fam.Spec{Kind: "string"}, Default: "slice", Kw: []string{"minItems"}},
+		&fam.Spec{Kind: "object", Default: "map", Props: []*fam.Prop{{Label: "k", Spec: &fam.Spec{Kind: "string"}}}},
+		&fam.Spec{Kind: "object", AddProps: "string", Default: "map"},
+		&fam.Spec{Kind: "string", Enum: "strings", Default: "scalar"},
+	)
+	for _, sp := range specs {
+		for _, pos := range []string{"optional", "required", "nullable-optional"} {
+			if pos == "nullable-optional" && (sp.Kind == "array" || sp.Kind == "object" || sp.Enum != "") {
+				continue
+			}
+			out = append(out, member{name: "default " + pos + " " + sp.String(), cfg: cfg, root: place(sp, pos)})
+		}
+	}
+	return out
+}
+
+func enumMembers(tier string, cfg gen.Config) []member {
+	var out []member
+	type ek struct{ kind, enum string }
+	for _, e := range []ek{{"string", "strings"}, {"integer", "ints"}, {"number", "numbers"}, {"boolean", "bools"}, {"any", "strings"}, {"any", "numbers"}, {"any", "bools"}, {"any", "mixed"}, {"any", "null"}, {"null", "null"}} {
+		sp := &fam.Spec{Kind: e.kind, Enum: e.enum}
+		for _, pos := range []string{"required", "optional", "def-required"} {
+			out = append(out, member{name: "enum " + pos + " " + sp.String(), cfg: cfg, root: place(sp, pos)})
+		}
+		out = append(out, member{name: "enum items " + sp.String(), cfg: cfg, root: place(&fam.Spec{Kind: "array", Items: sp.Clone()}, "required")})
+	}
+	return out
+}
+
+func addPropsMembers(tier string, cfg gen.Config) []member {
+	var out []member
+	for _, ap := range []string{"true", "string", "integer", "number", "boolean", "array", "object", "false"} {
+		for _, v := range []*fam.Spec{{Kind: "string"}, {Kind: "string", Kw: []string{"minLength"}}, {Kind: "integer", Kw: []string{"maximum"}}, {Kind: "string", Default: "scalar"}} {
+			for _, req := range []bool{false, true} {
+				root := &fam.Spec{Kind: "object", AddProps: ap, Props: []*fam.Prop{{Label: "p", Spec: v.Clone(), Required: req}}}
+				out = append(out, member{name: fmt.Sprintf("additionalProperties=%s p req=%v %s", ap, req, v.String()), cfg: cfg, root: root})
+			}
+		}
+	}
+	return out
+}
+
+func anyOfMembers(tier string, cfg gen.Config) []member {
+	var out []member
+	branch := func(i int) *fam.Spec {
+		return &fam.Spec{Kind: "object", Props: []*fam.Prop{{Label: fmt.Sprintf("b%d", i), Spec: &fam.Spec{Kind: "string"}, Required: i%2 == 0}, {Label: fmt.Sprintf("c%d", i), Spec: &fam.Spec{Kind: "integer", Kw: []string{"minimum"}}}}}
+	}
+	// a branch that is a map-only object (typed additionalProperties, no properties) gets an unmarshaler on a map type
+	out = append(out, member{name: "anyOf with a map-only branch", cfg: cfg, root: &fam.Spec{Kind: "object", Props: []*fam.Prop{{Label: "u", Required: true,
+		Spec: &fam.Spec{Kind: "object", AnyOf: []*fam.Spec{branch(0), {Kind: "object", AddProps: "integer"}}}}}}})
+	out = append(out, member{name: "anyOf root with a map-only branch", cfg: cfg, root: &fam.Spec{Kind: "object", AnyOf: []*fam.Spec{{Kind: "object", AddProps: "string"}, branch(1)}}})
+	for n := 1; n <= 4; n++ {
+		var bs []*fam.Spec
+		for i := 0; i < n; i++ {
+			bs = append(bs, branch(i))
+		}
+		out = append(out, member{name: fmt.Sprintf("anyOf root N=%d", n), cfg: cfg, root: &fam.Spec{Kind: "object", AnyOf: bs}})
+		var bs2 []*fam.Spec
+		for i := 0; i < n; i++ {
+			bs2 = append(bs2, branch(i))
+		}
+		out = append(out, member{name: fmt.Sprintf("anyOf property N=%d", n), cfg: cfg, root: &fam.Spec{Kind: "object", Props: []*fam.Prop{{Label: "u", Spec: &fam.Spec{Kind: "object", AnyOf: bs2}, Required: n%2 == 0}}}})
+	}
+	return out
+}
+
+// broadMembers is the union used by the rules that need no per-keyword oracle
+// (C01 syntax/types/contexts, C17 sibling equality, C19 totality).
+func broadMembers(tier string, cfg gen.Config) []member {
+	var out []member
+	out = append(out, stringMembers(tier, cfg)...)
+	nm := numericMembers(tier, cfg)
+	if tier != "thorough" {
+		// every 5th numeric member in the quick tier
+		var s []member
+		for i, m := range nm {
+			if i%5 == 0 {
+				s = append(s, m)
+			}
+		}
+		nm = s
+	}
+	out = append(out, nm...)
+	out = append(out, arrayMembers(tier, cfg)...)
+	out = append(out, nullMembers(tier, cfg)...)
+	out = append(out, typeMembers(tier, cfg)...)
+	out = append(out, requiredMembers(tier, cfg)...)
+	out = append(out, defaultMembers(tier, cfg)...)
+	out = append(out, enumMembers(tier, cfg)...)
+	out = append(out, addPropsMembers(tier, cfg)...)
+	out = append(out, anyOfMembers(tier, cfg)...)
+	return out
+}
